@@ -104,13 +104,21 @@ impl<const CAP: usize> Sink<CAP> {
 }
 impl<const CAP: usize> core::fmt::Write for Sink<CAP> {
     fn write_str(&mut self, s: &str) -> core::fmt::Result {
-        for &b in s.as_bytes() {
+        // trip count bounded by CAP + 1 whatever the (possibly unconstrained, on infeasible dispatch paths) length
+        // of `s`, so that a large harness-wide unwind bound cannot blow this loop up
+        let bytes = s.as_bytes();
+        if bytes.len() > CAP {
+            self.overflow = true;
+        }
+        let mut i = 0;
+        while i < CAP && i < bytes.len() {
             if self.len < CAP {
-                self.buf[self.len] = b;
+                self.buf[self.len] = bytes[i];
                 self.len += 1;
             } else {
                 self.overflow = true;
             }
+            i += 1;
         }
         Ok(())
     }
